@@ -324,3 +324,125 @@ def inline_helpers(idx, mod, cls, fn):
             fn2.body = body
             return fn2, done
     return fn, done
+
+
+# ---------------------------------------------------------------------------------------------------------------
+# Registration blocks.  The recognisers' initialize_configuration methods are read by several properties as a list of
+# `self.register_model('Name', Culture.X, lambda options: Model(...))` statements.  A maintainer may write the same list as a
+# table of rows plus a loop, and move the three registrations of a language into a helper method.  normalise_registrations
+# turns that back into the flat list, syntax tree to syntax tree (nothing is executed):
+#   * `for T in TABLE:` over a literal list / tuple of rows (given inline or through a local bound exactly once to the literal)
+#     is unrolled, the loop variables replaced by the row's element expressions (a starred `*row` argument is spliced);
+#   * a statement-call `self.h(...)` of a method of the same class whose body consists of statement-calls only is replaced by
+#     that body with the parameters replaced by the argument expressions (also inside lambdas - by-name, which is what a
+#     reader of "which classes does this constructor build" needs);
+#   * `(lambda: E)()` is replaced by E.
+
+class _SubstAny(ast.NodeTransformer):
+    def __init__(self, mapping):
+        self.mapping = mapping
+
+    def visit_Name(self, n):
+        if n.id in self.mapping and isinstance(n.ctx, ast.Load):
+            return copy.deepcopy(self.mapping[n.id])
+        return n
+
+    def visit_Call(self, n):
+        self.generic_visit(n)
+        args = []
+        for a in n.args:
+            if isinstance(a, ast.Starred) and isinstance(a.value, (ast.Tuple, ast.List)):
+                args.extend(a.value.elts)
+            else:
+                args.append(a)
+        n.args = args
+        if isinstance(n.func, ast.Lambda) and not n.args and not n.keywords and not n.func.args.args \
+                and not n.func.args.vararg and not n.func.args.kwarg and not n.func.args.kwonlyargs:
+            return n.func.body
+        return n
+
+
+def _only_calls(body):
+    return all((isinstance(st, ast.Expr) and isinstance(st.value, (ast.Call, ast.Constant))) or isinstance(st, ast.Pass)
+               for st in body)
+
+
+def normalise_registrations(idx, mod, cls, fn, depth=0):
+    """-> FunctionDef equivalent to fn for readers of its register_model statements (see above); fn itself when nothing applies"""
+    literals = {}
+    counts = {}
+    for n in ast.walk(fn):
+        if isinstance(n, ast.Assign) and len(n.targets) == 1 and isinstance(n.targets[0], ast.Name):
+            counts[n.targets[0].id] = counts.get(n.targets[0].id, 0) + 1
+            if isinstance(n.value, (ast.List, ast.Tuple)):
+                literals[n.targets[0].id] = n.value
+        elif isinstance(n, (ast.AugAssign, ast.For)) and isinstance(getattr(n, 'target', None), ast.Name):
+            counts[n.target.id] = counts.get(n.target.id, 0) + 1
+    literals = {k: v for k, v in literals.items() if counts.get(k) == 1}
+    changed = [False]
+
+    def expand_stmt(st):
+        # unroll a loop over a literal table
+        if isinstance(st, ast.For) and not st.orelse and _only_calls(st.body):
+            it = st.iter
+            if isinstance(it, ast.Name) and it.id in literals:
+                it = literals[it.id]
+            if isinstance(it, (ast.List, ast.Tuple)) and not any(isinstance(e, ast.Starred) for e in it.elts):
+                out = []
+                for row in it.elts:
+                    if isinstance(st.target, ast.Name):
+                        mapping = {st.target.id: row}
+                    elif isinstance(st.target, (ast.Tuple, ast.List)) and isinstance(row, (ast.Tuple, ast.List)) \
+                            and len(row.elts) == len(st.target.elts) and all(isinstance(t, ast.Name) for t in st.target.elts):
+                        mapping = {t.id: e for t, e in zip(st.target.elts, row.elts)}
+                    else:
+                        return [st]
+                    for b in st.body:
+                        b2 = _SubstAny(mapping).visit(copy.deepcopy(b))
+                        out.extend(expand_stmt(b2))
+                changed[0] = True
+                return out
+        # a statement-call of a same-class helper made of statement-calls
+        if isinstance(st, ast.Expr) and isinstance(st.value, ast.Call) and depth < 3:
+            call = st.value
+            f = call.func
+            if isinstance(f, ast.Attribute) and isinstance(f.value, ast.Name) and f.value.id == 'self' and cls is not None \
+                    and f.attr != 'register_model':
+                k, h = idx.find_method(cls, f.attr)
+                if h is not None and isinstance(h, ast.FunctionDef) and not h.decorator_list and _only_calls(h.body) \
+                        and not (h.args.vararg or h.args.kwarg or h.args.kwonlyargs or h.args.posonlyargs) \
+                        and not any(isinstance(a, ast.Starred) for a in call.args) and not any(kw.arg is None for kw in call.keywords):
+                    params = [p.arg for p in h.args.args][1:]
+                    if len(call.args) <= len(params):
+                        mapping = dict(zip(params, call.args))
+                        ok = True
+                        for kw in call.keywords:
+                            if kw.arg not in params or kw.arg in mapping:
+                                ok = False
+                            mapping[kw.arg] = kw.value
+                        defaults = dict(zip([p.arg for p in h.args.args][len(h.args.args) - len(h.args.defaults):], h.args.defaults))
+                        for prm in params:
+                            if prm not in mapping:
+                                if prm in defaults:
+                                    mapping[prm] = defaults[prm]
+                                else:
+                                    ok = False
+                        if ok:
+                            out = []
+                            for b in h.body:
+                                if isinstance(b, ast.Expr) and isinstance(b.value, ast.Constant):
+                                    continue
+                                b2 = _SubstAny(mapping).visit(copy.deepcopy(b))
+                                out.extend(expand_stmt(b2))
+                            changed[0] = True
+                            return out
+        return [st]
+    body = []
+    for st in fn.body:
+        body.extend(expand_stmt(st))
+    if not changed[0]:
+        return fn
+    fn2 = copy.copy(fn)
+    fn2.body = body
+    ast.fix_missing_locations(fn2)
+    return fn2
